@@ -38,7 +38,7 @@ type c05Params struct {
 	Swap      bool       `json:"swap"`               // list the branches in reverse order
 	Identity  string     `json:"identity,omitempty"` // "", "X-base", "X-X"
 	Forced    []forcedOp `json:"forced,omitempty"`   // operations applied first, in this order
-	Damage    int        `json:"damage,omitempty"`   // cli: 1 = a block index, 2 = a block, 3 = the table index of the other branch's table is removed from the store before the merge
+	Damage    int        `json:"damage,omitempty"`   // cli: an object is removed from the store before the merge: 1 = a block index, 2 = a block, 3 = the table index of the other branch's table; 4 = a block of the base table, 5 = a block of the merged-into branch's table
 	NoFF      string     `json:"no_ff,omitempty"`    // cli + X-base: the unchanged branch stays at the base commit and fast-forward is disabled by "flag" or "config"
 }
 
@@ -837,14 +837,24 @@ func runMergeCLI(o *fw.Obs, env *fw.Env, id string, base *model.Tbl, branches []
 		rs := rd.OpenRefStore()
 		headBefore, _ = rs.Get("heads/b0")
 		done := false
-		if h, err := rs.Get("heads/b1"); err == nil {
+		victim := "heads/b1"
+		if p.Damage >= 4 {
+			victim = "heads/b0"
+		}
+		if h, err := rs.Get(victim); err == nil {
 			if com, err := objects.GetCommit(odb, h); err == nil {
+				if p.Damage == 4 && len(com.Parents) > 0 {
+					// the common base
+					if pc, err := objects.GetCommit(odb, com.Parents[0]); err == nil {
+						com = pc
+					}
+				}
 				if tbl, err := objects.GetTable(odb, com.Table); err == nil && len(tbl.Blocks) > 0 {
 					k := int(h[0]) % len(tbl.Blocks)
 					switch p.Damage {
 					case 1:
 						done = objects.DeleteBlockIndex(odb, tbl.BlockIndices[k]) == nil
-					case 2:
+					case 2, 4, 5:
 						done = objects.DeleteBlock(odb, tbl.Blocks[k]) == nil
 					default:
 						done = objects.DeleteTableIndex(odb, com.Table) == nil
@@ -1135,8 +1145,8 @@ func init() {
 				}
 			}
 			// an object of the other branch's table is missing from the store: the merge fails, it does not commit a table with rows dropped
-			for i := 0; i < l.N(12, 240); i++ {
-				l.Add("cli", c05Params{NCols: 2 + i%3, Branches: 2, Intensity: 1 + i%3, Rows: 3 + i*11%50, Output: "cli", PK: []int{0}, Ops: []string{"edit", "add", "remove"}, Damage: 1 + i%3}, 0)
+			for i := 0; i < l.N(20, 400); i++ {
+				l.Add("cli", c05Params{NCols: 2 + i%3, Branches: 2, Intensity: 1 + i%3, Rows: []int{3 + i*11%50, 3 + i*11%50, 520 + i*7%200}[i%3], Output: "cli", PK: []int{0}, Ops: []string{"edit", "add", "remove"}, Damage: 1 + i%5}, 0)
 			}
 			// keyless tables, one branch with the columns in another order
 			for i := 0; i < l.N(8, 160); i++ {
